@@ -69,6 +69,26 @@ func c12Int(c *core.Ctx, value int, size int) {
 		return
 	}
 	c.Nontrivial([]byte("int"), in)
+	// encodings handed out earlier stay what they were while other values are encoded
+	if e2 == nil {
+		held1, held2 := i1.Bytes(), b2
+		other := int(^uint64(value) & math.MaxInt64)
+		for _, sz := range []int{8, size} {
+			fit := other
+			if sz < 8 {
+				fit = other & (1<<(8*uint(sz)) - 1)
+			}
+			data.EncodeIntN(fit, sz)
+			data.NewIntegerFromInt(fit, sz)
+		}
+		want := beBytes(uint64(value), size)
+		if !bytes.Equal(held2, want) {
+			c.Violate("data.EncodeIntN", "earlier-result-changed-by-later-call", sh, in, fmt.Sprintf("value %d size %d: the encoding handed out earlier now reads %x", value, size, held2))
+		}
+		if !bytes.Equal(held1, want) {
+			c.Violate("data.NewIntegerFromInt", "earlier-result-changed-by-later-call", sh, in, fmt.Sprintf("value %d size %d: the encoding handed out earlier now reads %x", value, size, held1))
+		}
+	}
 	enc := i1.Bytes()
 	it := data.Integer(enc)
 	if it.Int() != value {
@@ -238,8 +258,13 @@ func runC12(c *core.Ctx) {
 	c.Job("strings", 301*c.N(4, 40), func(i int, r *core.Rand) {
 		n := i % 301
 		content := r.Bytes(n)
-		c.Eval(1)
 		sh := gen.Shape{"len": n}
+		if (i/301)%2 == 1 {
+			// valid multi-byte UTF-8 of exactly n bytes: the limit counts bytes, not characters
+			content = utf8OfLen(r, n)
+			sh["utf8_multibyte"] = true
+		}
+		c.Eval(1)
 		for _, ctor := range []struct {
 			site string
 			fn   func(string) (data.I2PString, error)
@@ -325,4 +350,20 @@ func runC12(c *core.Ctx) {
 		}
 	})
 	c.Exhaustive("ReadI2PString on every (declared 0..255, available 0..300) combination")
+}
+
+// utf8OfLen returns exactly n bytes of valid UTF-8 made of as many multi-byte characters as fit
+// (2-, 3- and 4-byte encodings), filled up with ASCII.
+func utf8OfLen(r *core.Rand, n int) []byte {
+	runes := []string{"\u00e9", "\u4e16", "\U0001F600", "\u00df", "\u20ac"}
+	var b []byte
+	for len(b) < n {
+		s := runes[r.Pick(len(runes))]
+		if len(b)+len(s) > n {
+			b = append(b, byte('a'+r.Pick(26)))
+			continue
+		}
+		b = append(b, s...)
+	}
+	return b
 }
